@@ -195,7 +195,12 @@ CallFunc(name, args, S) ==
     [] name = "nul" -> <<Null, Cb(S, "func", name, args)>>
     [] OTHER -> <<ErrV, Fail(S)>>
 
-FilterKnown(name) == name \in {"rec", "up", "wrap", "mark", "escape", "raw"}
+RECURSIVE ReplAll(_, _, _)
+ReplAll(bs, old, new) ==
+  IF Len(bs) < Len(old) THEN bs
+  ELSE IF SubSeq(bs, 1, Len(old)) = old THEN new \o ReplAll(SubSeq(bs, Len(old) + 1, Len(bs)), old, new)
+  ELSE <<bs[1]>> \o ReplAll(Tail(bs), old, new)
+FilterKnown(name) == name \in {"rec", "up", "wrap", "mark", "escape", "raw", "replace", "upper"}
 CallFilter(name, v, args, S) ==      \* <<value, S'>>
   LET S1 == Cb(S, "filter", name, <<v>> \o args) IN
   CASE name = "rec" -> <<v, S1>>
@@ -211,6 +216,18 @@ CallFilter(name, v, args, S) ==      \* <<value, S'>>
     [] name = "raw" ->
          IF ~S.auto THEN <<ErrV, Fail(S)>>
          ELSE LET b == CoerceBytes(v) IN IF BytesOOM(b) THEN <<OOM, OomS(S)>> ELSE <<Safe(Str(b), EscTypes), S>>
+    (* two filters of the twig package (not recording callbacks): their result is a NEW plain string, whatever the subject was
+       marked safe for - the replacement values were spliced in after the mark was given *)
+    [] name = "replace" ->
+         IF ~S.auto THEN <<ErrV, Fail(S)>>
+         ELSE LET b == CoerceBytes(v) IN
+              IF BytesOOM(b) \/ Len(args) # 1 \/ args[1].t # "hash" \/ Len(args[1].pairs) # 1 THEN <<OOM, OomS(S)>>
+              ELSE LET k == args[1].pairs[1][1]  w == CoerceBytes(args[1].pairs[1][2]) IN
+                   IF k = <<>> \/ BytesOOM(w) THEN <<OOM, OomS(S)>> ELSE <<Str(ReplAll(b, k, w)), S>>
+    [] name = "upper" ->
+         IF ~S.auto THEN <<ErrV, Fail(S)>>
+         ELSE LET b == CoerceBytes(v) IN
+              IF BytesOOM(b) \/ \E i \in 1..Len(b) : b[i] > 127 THEN <<OOM, OomS(S)>> ELSE <<Str(AsciiUpper(b)), S>>
     [] name = "up"  -> LET b == CoerceBytes(v) IN
                        IF BytesOOM(b) THEN <<OOM, OomS(S1)>> ELSE <<Str(AsciiUpper(b)), S1>>
     (* a user filter that marks its input safe for html: a NEW value; the value it was derived from keeps its own types *)
